@@ -218,7 +218,8 @@ def run_check(pid, tier, seed, jobs=None):
     shortfalls = {k: (counters.get(k, 0), need) for k, need in required.items() if counters.get(k, 0) < need}
     n_eval = sum(1 for r in results if r['verdict'] != 'inconclusive')
     inc_limit = max(3, int(0.03 * len(results)))
-    verdict_inconclusive = bool(shortfalls) or n_eval == 0 or n_inc > inc_limit or len(nontrivial) < 2
+    n_harness_exc = sum(1 for r in results if r['verdict'] == 'inconclusive' and r.get('why') == 'harness exception')
+    verdict_inconclusive = bool(shortfalls) or n_eval == 0 or n_inc > inc_limit or len(nontrivial) < 2 or n_harness_exc > 0
     ev = {
         'property_id': pid, 'tier': tier, 'seed': seed, 'level': mod.LEVEL,
         'coverage': {
